@@ -19,7 +19,7 @@ import itertools
 from bounded.common import MODES, entities, parse
 
 # ------------------------------------------------------------------ vocabulary
-PLAIN = ["mood", "Order_Items", "x", "a1b2", "_u", "t$1", "MOOD", "m-n", "customerId", "phone_array"]
+PLAIN = ["mood", "Order_Items", "x", "a1b2", "_u", "t$1", "MOOD", "m-n", "customerId", "phone_array", "collateral_type", "Checksum_t", "references_t"]   # the last three: names that BEGIN with a keyword
 # user type names containing the upper-case word ARRAY (Oracle varray style): only used by the dedicated set (6b)
 ARRAY_NAMES = ["PHONE_ARRAY", "ARRAY_T", "T_ARRAY_OF_INT"]
 QUOTED = ['"Mood"', '"my type"', '"a.b"', "[mood]", "`mood`", '"joe\'s"']     # the last one: an apostrophe inside a delimited name is part of the name
